@@ -94,6 +94,9 @@ def run(ctx):
             a, b = others[0]
             c = [c for c in f.conds(b) if c['switch'] == a]
             c = c[0] if c else None
+            # `max < thr` and `thr > max` are the same strict comparison (true edge; NaN-safe in both forms)
+            if c is not None and c['kind'] == 'Gt' and c.get('truth') is True:
+                c = dict(c, kind='Lt', a=c['b'], b=c['a'])
             if c is None or c['kind'] != 'Lt' or c.get('truth') is not True:
                 ok2 = False
                 detail = 'the conditional exit is %s on edge %s' % (c and c['kind'], c and c.get('truth'))
